@@ -981,6 +981,9 @@ func TestVerifC03(t *testing.T) {
 	defer res.Write(t)
 
 	check := func(prog []string, fineSeed uint64, source string) {
+		if res.Enough() {
+			return // several failing schedules are on record; under a broken reader every further one costs a full settle deadline
+		}
 		run := vC03RunScript(t, model, prog, fineSeed)
 		hwMoves := 0
 		for _, op := range prog {
